@@ -1,7 +1,8 @@
 """C08  serializeMsgPack emits one conforming MessagePack object equal to the document (WriterTrace.tla with
 Focus = "C08": MsgPack.tla's decoder - the definition of the format - accepts the bytes as exactly one
 object equal to the document; floats bit-exact or an integer encoding of an integral value; counts,
-measureMsgPack, buffer law; header widths at the 16-bit boundaries from the specification's ladder)."""
+measureMsgPack, buffer law; string / array / map headers the narrowest for their length (TightHeaders), the
+16-bit boundaries of bulk documents from the specification's ladder)."""
 from checks import writercommon
 
 
@@ -9,5 +10,6 @@ def run(tier):
     return writercommon.run("C08", tier,
                             "one evaluation = one document serialized to MessagePack on every destination kind and "
                             "every buffer capacity, validated by WriterTrace.tla (Focus C08)",
-                            ["equality with the minimal-width encoding Canon(v) is not required (a wider legal header "
-                             "would still satisfy C08)"])
+                            ["string, array and map headers must be the narrowest that hold the length (TightHeaders: the header "
+                             "changes exactly at 31/32, 255/256, 65535/65536 resp. 15/16, 65535/65536, as the property lists); "
+                             "the WIDTH of an integer encoding is not judged (the property asks for value and sign only)"])
